@@ -13,11 +13,32 @@ Nodes == ndJsonDeserialize(IOEnv.TRIE)
 Diag == "DIAG" \in DOMAIN IOEnv /\ IOEnv.DIAG = "1"
 
 INSTANCE Shuttle WITH Progs <- ProgsIn, TrackWoken <- TRUE, SpuriousWakeups <- TRUE
+CK == INSTANCE Clocks
 
-VARIABLES node, S
-vars == <<node, S>>
+VARIABLES node, S,
+          viol     \* names of the invariants violated so far on this branch of the current execution
+vars == <<node, S, viol>>
 
 ProgIdx(pid) == CHOOSE i \in 1..Len(ProgsIn) : ProgsIn[i].id = pid
+
+\* ---- objects touched by an operation (for the conservative happens-before relation of Clocks.tla)
+Keys(s, w) ==
+  LET o == NextOp(s, w) IN
+  CASE o.k \in {"lock", "try_lock"} -> {<<"m", o.o>>}
+    [] o.k = "cv_wait" -> {<<"v", o.o>>, <<"m", o.v>>}
+    [] o.k \in {"notify_one", "notify_all"} -> {<<"v", o.o>>}
+    [] o.k \in {"read", "write", "try_read", "try_write"} -> {<<"r", o.o>>}
+    [] o.k \in {"unlock", "unlock_if", "ginc", "gget"} ->
+         LET g == s.gd[w+1][o.w+1] IN IF g.k = "m" THEN {<<"m", g.o>>} ELSE IF g.k \in {"r", "w"} THEN {<<"r", g.o>>} ELSE {}
+    [] o.k \in {"acquire", "try_acquire", "release", "close", "avail", "is_closed"} -> {<<"s", o.o>>}
+    [] o.k \in {"load", "store", "swap", "fadd", "fsub", "fmax", "fmin", "cas"} -> {<<"a", o.o>>}
+    [] o.k \in {"await_flag", "set_flag", "wake_only"} -> {<<"f", o.o>>}
+    [] o.k \in {"send", "try_send", "recv", "try_recv", "clone_tx", "drop_tx", "drop_rx"} -> {<<"c", o.o>>}
+    [] o.k = "barrier_wait" -> {<<"b", o.o>>}
+    [] o.k \in OnceOps \cup LazyOps \cup {"is_completed", "sonce_done"} ->
+         {<<"o", OIdx(s, w)>>} \cup (IF o.k \in OnceOps /\ o.w >= 0 THEN {<<"a", o.w>>} ELSE {})
+    [] OTHER -> {}
+Busy(s, t) == {w \in Live(s) \ {t} : Ph(s, w) # "ready" /\ Keys(s, w) \cap Keys(s, t) # {}}
 
 \* ---- unlogged internal progress of the task that ran last
 Step1(X) == {Block(x, x.cur) : x \in {y \in X : y.cur >= 0 /\ ~y.fin[y.cur+1] /\ CanBlock(y, y.cur)}}
@@ -67,7 +88,16 @@ Op(e) ==
        /\ CanComplete(s1, t)
        \* the runtime's own schedule record has one entry per decision and per random draw so far
        /\ ("sl" \in DOMAIN e => e.sl = s1.slen)
-       /\ LET res == Complete(s1, t) IN e.r = res.r /\ S' = res.s
+       /\ LET res == Complete(s1, t)
+              o == NextOp(s1, t)
+              guard == IF o.k \in {"unlock", "unlock_if", "ginc", "gget"} THEN s1.gd[t+1][o.w+1] ELSE NoGuard
+              oix == IF o.k \in OnceOps \cup LazyOps \cup {"is_completed", "sonce_done"} THEN OIdx(s1, t) ELSE 0
+              tgt == IF o.k \in {"join", "await_join", "try_join"} /\ HasChild(s1, o.v) THEN ChildId(s1, o.v) ELSE -1
+          IN /\ e.r = res.r
+             \* with clocks logged, the happens-before bookkeeping of Clocks.tla advances as well
+             /\ S' = IF "clk" \in DOMAIN e
+                     THEN [res.s EXCEPT !.hb = CK!HStep(s1.hb, s1, res.s, t, o, e.r, e.clk, guard, oix, tgt, Busy(s1, t))]
+                     ELSE res.s
 
 \* a thread-local destructor ran (logged from Drop): the first live slot of the exiting thread
 Dt(e) ==
@@ -115,7 +145,7 @@ End(e) ==
           [] OTHER -> FALSE
      /\ S' = s1
 
-Apply(e) == CASE e.e = "exec" -> S' = InitState(ProgIdx(e.p))
+Apply(e) == CASE e.e = "exec" -> S' = [hb |-> CK!HInit(ProgsIn[ProgIdx(e.p)])] @@ InitState(ProgIdx(e.p))
               [] e.e = "dec" -> Dec(e)
               [] e.e = "op" -> Op(e)
               [] e.e = "rnd" -> Rnd(e)
@@ -124,14 +154,17 @@ Apply(e) == CASE e.e = "exec" -> S' = InitState(ProgIdx(e.p))
               [] e.e = "drop" -> DropEv(e)
               [] e.e = "end" -> End(e)
 
-Init == node = 1 /\ S = [p |-> 0]
-Next == \E c \in Range(Nodes[node].kids) : node' = c /\ Apply(Nodes[c].ev)
+AllViolatedIn(s) == IF s.p = 0 THEN {} ELSE Violated(s) \cup CK!ClockViolations(s.hb)
+Init == node = 1 /\ S = [p |-> 0] /\ viol = {}
+Next == \E c \in Range(Nodes[node].kids) :
+          /\ node' = c
+          /\ Apply(Nodes[c].ev)
+          \* invariants are evaluated at every step; a violation is remembered for the branch (the inference of
+          \* unlogged steps may follow several branches: only those that explain the whole execution count)
+          /\ viol' = (IF Nodes[c].ev.e = "exec" THEN {} ELSE viol) \cup AllViolatedIn(S')
 Spec == Init /\ [][Next]_vars
 
 \* reached leaves are reported (one line per leaf and surviving inference branch)
-LeafInv == (Nodes[node].kids = <<>> => PrintT(<<"LEAF", node>>))
+LeafInv == (Nodes[node].kids = <<>> => PrintT(<<"LEAF", node, viol>>))
            /\ (Diag => PrintT(<<"AT", node, ToString(S)>>))
-\* every abstract-state invariant is evaluated at every step of every real execution
-\* (reported, not fatal: the walk goes on so that every other trace is still checked)
-SafetyInv == node = 1 \/ S.p = 0 \/ Violated(S) = {} \/ PrintT(<<"INV", node, Violated(S)>>)
 =============================================================================
